@@ -58,9 +58,9 @@ def cap17 (bits : Bits) : Res (List String) := do
   let d ← dataR bits
   let first := d.take 24
   let idx := (List.range first.length).filter (fun i => first.getD i false)
-  idx.mapM (fun i => do
+  Res.mapM (fun i => do
     let s ← idxR Tables.cap17All i
-    pure ("BDS" ++ s))
+    pure ("BDS" ++ s)) idx
 
 def is17 (bits : Bits) : Res Bool := do
   if (← allzerosB bits) then pure false else do
